@@ -70,8 +70,13 @@ def _worker(ob, conn):
         budget = ob.get("timeout", 120)
         try:
             for fname in fn_names:
+                if budget <= 0 and agg is not None:
+                    if agg["status"] == "discharged":
+                        agg["status"] = "inconclusive"
+                    agg["reason"] = (agg["reason"] + "; " if agg["reason"] else "") + "obligation budget exhausted before " + fname
+                    break
                 fn = getattr(mod, fname) if hasattr(mod, fname) else mod.HARNESSES[fname]
-                res = engine.explore(fn, timeout_s=max(5.0, budget), required_tags=(),
+                res = engine.explore(fn, timeout_s=max(2.0, budget), required_tags=(),
                                      per_path_timeout=ob.get("per_path_timeout", 40.0),
                                      stop_on_fail=not ob.get("collect_all", False),
                                      max_fail_sigs=ob.get("max_fail_sigs", 8))
